@@ -634,3 +634,46 @@ def main(ctx):
 
     call_sequences(ctx, "call-sequences", seq_pool, SEQ_CALLS, seq_run, lambda: [algorithm, nu], depth=3, nodedup_depth=3,
                    result_edits=True)
+
+    # ------------------------------------------------------------ environment: the caller's stack
+    # the sorts are recursive; the depth of the CALLER's stack and the interpreter's recursion limit are part of
+    # their environment.  Every short input is sorted from inside a recursion of several depths, and the
+    # recursion limit must be what it was afterwards (also when the sort raised).
+    import sys as _sys
+
+    def at_depth(n, fn):
+        if n <= 0:
+            return fn()
+        return at_depth(n - 1, fn)
+
+    def one_deep(case, rec):
+        depth, a, kv = case
+        lim0 = _sys.getrecursionlimit()
+        d = list(a)
+        v = list(range(len(a)))
+        try:
+            if kv:
+                at_depth(depth, lambda: algorithm.quicksort_keyvalue(d, v))
+            else:
+                at_depth(depth, lambda: algorithm.quicksort(d))
+            err = None
+        except RecursionError as e:
+            err = "RecursionError"
+        except Exception as e:
+            err = "%s: %s" % (type(e).__name__, e)
+        lim1 = _sys.getrecursionlimit()
+        _sys.setrecursionlimit(lim0)
+        if lim1 != lim0:
+            return rec.fail(case, "the interpreter's recursion limit was %d before the sort and %d after it" % (lim0, lim1))
+        if err is not None:
+            return rec.fail(case, "sorting %r from a call stack %d frames deep (recursion limit %d) raised %s" % (list(a), depth, lim0, err))
+        if d != sorted(a):
+            return rec.fail(case, "sorting %r from a call stack %d frames deep left %r" % (list(a), depth, d))
+        if kv and [a[i] for i in v] != d:
+            return rec.fail(case, "keys and values separated: %r / %r" % (d, v))
+        rec.ok(case, outcome="depth%d" % depth, nontrivial=depth > 0)
+
+    deep_inputs = [(), (1,), (2, 1), (3, 1, 2), (1, 1, 0, 2, 2, 0), tuple(range(12)), tuple(range(40, 0, -1))]
+    dunits = [(dp, a, kv) for dp in (0, 50, 150, 400, 700) for a in deep_inputs for kv in (False, True)]
+    ctx.lattice("sorts-from-a-deep-stack", dunits, one_deep, engine="environment",
+                bounds=dict(caller_depths=[0, 50, 150, 400, 700], recursion_limit=_sys.getrecursionlimit()))
